@@ -495,3 +495,74 @@ def variants(world, tier="quick", only=None):   # noqa: F811
             continue
         out.append(InfixVariant(world, m, tier))
     return out
+
+
+# ---------------------------------------------------------------------------
+# ForAll / Exists: the binder list in any spelling of the collection
+# ---------------------------------------------------------------------------
+class QuantifierCtorVariant(Variant):
+    """ForAll(vars, body) / Exists(vars, body) with k variables given as a list, a tuple or a one-shot iterator: with no
+    variable the body itself is returned (documented normalisation, whatever the spelling of the empty collection);
+    otherwise THE node (op, body, the variables in the order given), of type Bool, denoting the quantification."""
+    prop_ids = ("C03", "C04")
+    bounded = "arity"
+
+    def __init__(self, world, name, k, spelling):
+        self.world, self.ctor, self.k, self.spelling = world, name, k, spelling
+        self.qualname = MGR + "." + name
+        self.name = "%s/%d vars as %s" % (name, k, spelling)
+        self.Kop = S.FORALL if name == "ForAll" else S.EXISTS
+
+    def setup(self, ex):
+        from pyvc.symex import Builtin
+        W = self.world
+        env = core.make_env(ex, W)
+        mgr = env.fields["_formula_manager"]
+        self.body = z3.Const("body", Node)
+        W.touch(ex, self.body)
+        ex.assume(ty(self.body) == BoolT)
+        self.vars = [z3.Const("bound%d" % i, Node) for i in range(self.k)]
+        for x in self.vars:
+            W.touch(ex, x)
+            ex.assume(S.op(x) == S.SYMBOL)
+            W.learn(ex, x, op=S.SYMBOL, k=0)
+            ex.assume(z3.Or(ty(x) == BoolT, ty(x) == IntT, ty(x) == RealT, S.Ty.is_BVT(ty(x))))
+        if self.k > 1:
+            ex.assume(z3.Distinct(self.vars))
+        coll = list(self.vars)
+        if self.spelling == "tuple":
+            coll = tuple(coll)
+        elif self.spelling == "iterator":
+            coll = ex.call(W.builtins["iter"], [list(self.vars)], {})
+        fi = W.repo.func(self.qualname)
+        return W.wrap_func(fi, fi.module, bound=mgr), [coll, self.body], {}
+
+    def check(self, ex, outcome):
+        kind, r = outcome
+        if kind == "raise":
+            return [("no-exception", z3.BoolVal(False))]
+        if not is_node(r):
+            return [("returns-node", z3.BoolVal(False))]
+        W = self.world
+        W.touch(ex, r)
+        if self.k == 0:
+            return [("C04:no-variable-gives-the-body-itself", r == self.body)]
+        goals = [("C04:quantifier-node-over-the-body", z3.And(S.op(r) == self.Kop, S.arg(r, S.K(0)) == self.body)),
+                 ("C04:binds-the-variables-in-the-order-given", z3.And([S.nqv(r) == self.k] + [S.qv(r, S.K(i)) == x for i, x in enumerate(self.vars)])),
+                 ("C03:result-type", ty(r) == BoolT)]
+        return goals
+
+
+_base_variants6b = variants
+
+
+def variants(world, tier="quick", only=None):   # noqa: F811
+    out = _base_variants6b(world, tier, only)
+    for name in ("ForAll", "Exists"):
+        for k in (0, 1, 2):
+            for sp in ("list", "tuple", "iterator"):
+                v = QuantifierCtorVariant(world, name, k, sp)
+                if only and not any(o in v.name for o in only) and name not in only:
+                    continue
+                out.append(v)
+    return out
